@@ -1,0 +1,5 @@
+//go:build !verif
+
+package in_toto
+
+func verifEmit(string, ...any) {}
